@@ -36,8 +36,8 @@ Matches(m, all) ==
   /\ \A p \in Spawned : Norm(MStat(m, p)) = Norm(IF Has(all, p) THEN all[p] ELSE "none")
 
 MacroOf(m, p) ==
-  IF p \in Procs /\ CanStart(m, p) THEN SettleSet(Run(Start(m, p), p))
-  ELSE IF p \in Procs /\ AtGate(m, p) THEN SettleSet(Run(Exec(m, p), p))
+  IF p \in Procs /\ CanStart(m, p) THEN SettleSet(RunL(Start(m, p), p))
+  ELSE IF p \in Procs /\ AtGate(m, p) THEN SettleSet(StepS(m, p))
   ELSE {m}
 
 Init == l = 1 /\ ms = {} /\ open = {} /\ dl = "" /\ rs = [t |-> 0]
